@@ -516,7 +516,8 @@ fn part_d(a: &Args, shared: &SharedReport, th: bool) {
                             b = b.symmetry_fn(pm_rep);
                         }
                         let c = b.spawn_dfs().join();
-                        let disc = c.discoveries();
+                        // a path that cannot be rebuilt panics inside discoveries(): that is a verdict, not a harness crash
+                        let disc = std::panic::catch_unwind(std::panic::AssertUnwindSafe(|| c.discoveries()));
                         let visited = vis.lock().unwrap().clone();
                         (c.unique_state_count(), disc, visited)
                     };
@@ -525,6 +526,14 @@ fn part_d(a: &Args, shared: &SharedReport, th: bool) {
                     let (u_plain, d_plain, _) = run(false);
                     let (u_sym, d_sym, vis_sym) = run(true);
                     end_case(shared);
+                    let (d_plain, d_sym) = match (d_plain, d_sym) {
+                        (Ok(a), Ok(b)) => (a, b),
+                        (a, b) => {
+                            let mut r = shared.lock().unwrap();
+                            r.violation("c10:symmetry-path-not-real", format!("discoveries() panicked while rebuilding a reported path (plain dfs ok: {}, dfs with symmetry ok: {}) on {:?}", a.is_ok(), b.is_ok(), m), rv.clone());
+                            continue;
+                        }
+                    };
                     let got_plain = verdict(&|i| d_plain.contains_key(names[i]));
                     let got_sym = verdict(&|i| d_sym.contains_key(names[i]));
                     let mut r = shared.lock().unwrap();
